@@ -34,8 +34,11 @@ from pathlib import Path
 from typing import Any, Optional
 
 ROOT = Path(__file__).resolve().parent.parent
-EVIDENCE_DIR = ROOT / "evidence"
-REPLAY_DIR = ROOT / "replays"
+# VERIF_OUT redirects evidence and replays (used when the checks are run against a seeded scratch tree, so that the
+# evidence of /repo itself is not overwritten)
+_OUT = Path(os.environ["VERIF_OUT"]) if os.environ.get("VERIF_OUT") else ROOT
+EVIDENCE_DIR = _OUT / "evidence"
+REPLAY_DIR = _OUT / "replays"
 FINDINGS_FILE = ROOT / "known_findings.json"
 
 CASE_TIMEOUT_S = 90  # generous wall-clock watchdog; firing = inconclusive case, never a violation
